@@ -108,3 +108,27 @@ func (r renderResult) canon() map[string]any {
 	}
 	return map[string]any{"out": r.Out}
 }
+
+// newEngine / renderOn: a long-lived engine over a fixed file set, for checks that need several renders on ONE engine
+func newEngine(files map[string]string, opts ...vuego.LoadOption) vuego.Template {
+	mfs := fstest.MapFS{}
+	for n, c := range files {
+		mfs[n] = &fstest.MapFile{Data: []byte(c), ModTime: time.Unix(1700000000, 0)}
+	}
+	return vuego.NewFS(mfs, opts...)
+}
+
+func renderOn(t vuego.Template, page string, data any) (res renderResult) {
+	defer func() {
+		if e := recover(); e != nil {
+			res.Panic = fmt.Sprint(e)
+		}
+	}()
+	var buf bytes.Buffer
+	err := t.Load(page).Fill(data).Render(context.Background(), &buf)
+	res.Out = buf.String()
+	if err != nil {
+		res.Err = err.Error()
+	}
+	return res
+}
